@@ -147,10 +147,13 @@ decreasing_by all_goals (simp only [List.length_drop, List.length_cons]; omega)
 
 /-- Code variants the correspondence accepts.  The default is the pinned code as it is.
 `drainSkips`: the drain branch of `next` skips ignored placeholders (fixes/C18-drain-ignored.diff).
-`lossyFixed`: `LossyUtf8` behaves like `String::from_utf8_lossy` (the repair handled under C17). -/
+`lossyFixed`: `LossyUtf8` behaves like `String::from_utf8_lossy` (the repair handled under C17).
+`multiRowFixed`: see the field. -/
 structure Variant where
   drainSkips : Bool := false
   lossyFixed : Bool := false
+  /-- the cache is dropped after a name that spans rows (fixes/C18-cache-multirow.diff) -/
+  multiRowFixed : Bool := false
   deriving DecidableEq, Repr, Inhabited
 
 def utf16LenV (v : Variant) (b : Bytes) : Nat := if v.lossyFixed then utf16Spec b else utf16Len b
@@ -491,7 +494,8 @@ def processTag (v : Variant) (cfg : Cfg) (src : Bytes) (pi : PatInfo) (m : Mat) 
         let co := cacheStep (utf16LenV v) src maxLineLen st.prev nameR nameNode.sp nameNode.ep
         let tag : Tag := { range := range, name := nameR, line := co.line, spanS := nameNode.sp,
                            spanE := nameNode.ep, u16 := co.u16, docs := docs, isDef := a.isDef, stid := a.stid }
-        { st with prev := some co.info, queue := qInsert tag m.pat st.queue }
+        let prev' := if v.multiRowFixed && nameNode.sp.row != nameNode.ep.row then none else some co.info
+        { st with prev := prev', queue := qInsert tag m.pat st.queue }
     | none =>
       if a.ignored then { st with queue := qInsert (Tag.ignored nameR) m.pat st.queue }
       else st
